@@ -23,6 +23,7 @@ def run(ctx, rep):
     # rings close only if the edges are selected consistently: the selection / propagation tables are a necessary condition
     bt.check_select(ctx, rep)
     bt.check_prop(ctx, rep)
+    bt.check_atom_models(ctx, rep)
     # G-clamp, G-endpoint
     segrules.check_clamp(ctx, rep)
     segrules.check_algebra(ctx, rep)
